@@ -364,7 +364,7 @@ def extract(unit, ex):
             frag = R.r10_vec_idioms(frag, st)
         if cfg.get("option_unfold"):
             # `.map(` is ambiguous with Iterator::map at the token level: unfolded only where the unit says the receiver is an Option
-            which = ("map_or", "map_or_else") + (("map",) if cfg.get("option_unfold_map") else ())
+            which = ("map_or", "map_or_else") + (("map",) if cfg.get("option_unfold_map") else ()) + (("unwrap_or_else",) if cfg.get("option_unfold_unwrap_or_else") else ())
             frag = R.r10_option_unfold(frag, st, which)
         if cfg.get("drop_nested_fns"):
             frag = R.drop_nested_fns(frag, st)
@@ -723,6 +723,22 @@ def structural_checks(unit):
                     s0, bo, bc = R.find_fn_anywhere(toks, m, sc["count_in_fn"])
             except ExtractError as e:
                 res.append({"id": sc["id"], "ok": False, "detail": str(e), "why": sc.get("why", ""), "lost": True}); continue
+            if sc.get("before"):
+                # each of the two token sequences occurs exactly once in the body, the first one earlier, and the first one at the top level of the
+                # function body (not inside a nested block or closure)
+                a, b = sc["before"]
+                ia, ib = find_all_seq(toks, pat(a), bo, bc), find_all_seq(toks, pat(b), bo, bc)
+                depth = None
+                if len(ia) == 1:
+                    depth = 0
+                    for t in toks[bo + 1:ia[0]]:
+                        if t.k == "o": depth += 1
+                        elif t.k == "c": depth -= 1
+                ok = len(ia) == 1 and len(ib) == 1 and ia[0] < ib[0] and depth == 0
+                res.append({"id": sc["id"], "ok": ok, "detail": "`%s` occurs %d time(s)%s, `%s` %d time(s)%s in fn %s of %s (expected: once each, the first at the top level and earlier)"
+                            % (a, len(ia), "" if depth is None else " at nesting depth %d" % depth, b, len(ib), "" if not (len(ia) == 1 and len(ib) == 1) else (", in this order" if ia[0] < ib[0] else ", in the wrong order"), sc["count_in_fn"], sc["file"]),
+                            "why": sc.get("why", ""), "lost": False})
+                continue
             if sc.get("token_regex"):
                 n = len([1 for t in toks[bo:bc] if t.k == "id" and re.fullmatch(sc["token_regex"], t.s)])
                 sc = dict(sc, pattern="/" + sc["token_regex"] + "/")
